@@ -24,6 +24,7 @@ THEOREMS = [
     "Ts.World.C07_world_replicated_everywhere",
     "Ts.Glob.glob_subtree",
     "Ts.Glob.glob_subtree_sibling",
+    "Ts.Glob.glob_suffix",
 ]
 BUDGET_S = (100, 840)
 RULE = ("synth: for (W, W') in 1..6 x 1..6, random per-rank state trees (depth <= 4; dict / OrderedDict / list; keys with "
